@@ -609,6 +609,7 @@ func checkC09(c *Ctx) {
 	R.Assumptions = []string{"PopCallFrame restores csModuleID from the new top frame (pkg/runtime/vm.go)", "Function.Exec converts non-signal errors of built-ins into *value.Exception"}
 	u := c.Core()
 	u.buildSSA()
+	ruleExceptionPayload(c, u, "C09.payload")
 
 	// ---- C09.stop
 	for _, name := range []string{"evalPureStmtBlock", "evalStmtBlock"} {
